@@ -26,7 +26,9 @@ def parseRB? (s : String) : Option RB :=
       else if s.startsWith "bo" then some .own else if s.startsWith "bn" then some .bare
       else if s.startsWith "bt" then some .typed else if s.startsWith "bb" then some .plain
       else if s.startsWith "bm" then some .msg else if s.startsWith "br" then some .ctxT
-      else if s.startsWith "bs" then some .ctxM else none
+      else if s.startsWith "bs" then some .ctxM
+      -- `ctx.RuleCheckResult.DeepCopyFrom(NewTokenResultBlockedWithCause(…))`: status and all four fields copied into the pooled result
+      else if s.startsWith "bd" then some .ctx else none
     match st, (s.drop 2).toString.toNat? with
     | some st, some typ => if typ < 256 then some (.block st typ) else none
     | _, _ => none
@@ -81,6 +83,10 @@ def parseOp? : List String → Option Op
     | some id, some b => some (.whenexit e id b)
     | _, _ => none
   | ["exit", e] => some (.exit e)
+  -- two overlapping `Exit` calls on one entry (the second starts while the first is inside its handlers / `OnCompleted`):
+  -- `sync.Once` makes the second a no-op, so for the model this is one `Exit`
+  | ["exit2", e] => some (.exit e)
+  | ["clock", t] => t.toNat?.map Op.clock
   | ["log"] => some .log
   | ["ident", e] => some (.ident e)
   | ["blockerr", e] => some (.blockerr e)
